@@ -308,9 +308,12 @@ inline CallResult LoadZooWith(ArchiveOps& ops, Zoo& z, const std::string& bytes,
 	}
 	else
 	{
-		sim::SimIStreamBuf sb(bytes, c.seekable, c.delivery, faults);
+		PaddedInput pad;
+		const std::string& content = pad.Data(bytes, c, faults);
+		sim::SimIStreamBuf sb(content, c.seekable, c.delivery, faults);
 		sb.SetSeekBeyondFails(c.seekBeyondFails);
 		std::istream is(&sb);
+		try { PaddedInput::Position(is, c); } catch (...) {}
 		if (throwMode) is.exceptions(std::ios::badbit);
 		r = Guarded([&] { FailWindow fw; ops.LoadZoo(z, o, IoIn{ nullptr, &is }); });
 		if (info) { info->faultFired = sb.FaultFired(); info->reachedEof = sb.ReachedEof(); info->streamBad = is.bad(); info->streamFail = is.fail(); }
